@@ -41,6 +41,9 @@ func vrf_ite_str(c bool, a, b string) string { panic("vrf intrinsic") }
 func vrf_strsuffix(s, suffix string) bool { panic("vrf intrinsic") }
 func vrf_strprefix(s, prefix string) bool { panic("vrf intrinsic") }
 func vrf_strcontains(s, sub string) bool  { panic("vrf intrinsic") }
+func vrf_protect(field, mutex interface{}, label string) { panic("vrf intrinsic") }
+func vrf_interference(mutex interface{}, f func())       { panic("vrf intrinsic") }
+func vrf_shared(field interface{}, f func())             { panic("vrf intrinsic") }
 func vrf_yield()                          { panic("vrf intrinsic") }
 func vrf_advance_time(ms int)             { panic("vrf intrinsic") }
 func vrf_blocked_goroutines() int         { panic("vrf intrinsic") }
@@ -203,6 +206,9 @@ func vrf_now() int64 {
 	return time.Now().UnixNano()
 }
 func vrf_locks_held() int { return 0 }
+func vrf_protect(field, mutex interface{}, label string) {}
+func vrf_interference(mutex interface{}, f func())       {}
+func vrf_shared(field interface{}, f func())             {}
 func vrf_yield()          { time.Sleep(20 * time.Millisecond) }
 func vrf_advance_time(ms int) {
 	time.Sleep(time.Duration(ms) * time.Millisecond)
